@@ -52,6 +52,41 @@ def under_dummy_skip(mv, bb):
     return False
 
 
+def extra_filters(mv, bb, allow_reference=False):
+    """conditions a block depends on (within one loop iteration) other than loop guards, the dummy skip, the
+    first-reference match and error exits"""
+    out = []
+    deps = cfg.control_deps_closed(mv.body, intra_iteration=True).get(bb, ())
+    by_switch = {}
+    for (a, b) in deps:
+        by_switch.setdefault(a, set()).add(b)
+    for (a, b) in sorted(deps):
+        t = mv.body.blocks[a]["t"]
+        if t["k"] != "switch":
+            continue
+        live = set(s for s in cfg.succs(mv.body)[a] if mv.body.blocks[s]["t"]["k"] != "unreachable")
+        if by_switch[a] >= live:
+            continue  # reached through every arm of this match (some arms may bail): not a filter
+        g = mv.fr.describe_guard(a, b)
+        if g[0] == "loop":
+            continue
+        fake = type("E", (), {"frame": mv.fr, "ctrl": (g,)})
+        if circ._error_exit_guard(fake, g):
+            continue
+        cond = P.norm(mv.fr.operand_term(t["d"]))
+        vals = cfg.switch_edge_value(mv.body, a, b)
+        if isinstance(cond, tuple) and cond[0] == "bin" and cond[1] == "Eq" and vals == ["0"] and any(
+                n.startswith(("BLOCK_HASH", "PRIVATE_BATCH_BLOCK_HASH")) for n in offsets_in(expand(mv.fr, cond))):
+            continue
+        if allow_reference and isinstance(cond, tuple) and cond[0] == "discr" and "reference" in T.show(cond, maxdepth=2):
+            continue
+        if isinstance(cond, tuple) and cond[0] == "discr" and isinstance(cond[1], tuple) and cond[1] and cond[1][0] in ("tuple", "elem", "adt"):
+            # destructuring match on an iterator item / tuple literal: irrefutable pattern plumbing
+            continue
+        out.append((T.show(cond, maxdepth=5)[:160], vals, mv.body.loc(a)))
+    return out
+
+
 def classify_preflight(mv, layer):
     """err-guards of an ensure_*_compatible function -> {class: [guard]}; unknown ones under None"""
     classes = {}
@@ -142,6 +177,18 @@ def analyse(ck):
                             pairs.add(tuple(ds))
         ob.add({"C14"}, pairs == {("EXIT_1_START", "OUTPUT_AMOUNT_1_START"), ("EXIT_2_START", "OUTPUT_AMOUNT_2_START")}, "AGREE", "private/mirror/range/pairs",
                "the mirrored pairs are (EXIT_1, OUTPUT_AMOUNT_1) and (EXIT_2, OUTPUT_AMOUNT_2) — the same pairing the circuit's slot masking uses", g["loc"], sorted(pairs))
+    # no extra filter: a mirrored check must not sit under a further condition (that would make the preflight weaker than
+    # the circuit for the inputs the condition excludes, e.g. "skip the all-zero exit account")
+    sites = [(c, g["bb"], g["loc"]) for c in ("asset", "block", "fee", "range") for g, _, _ in cl.get(c, [])]
+    if uniq:
+        sites.append(("unique", uniq[0].bb, uniq[0].loc))
+    for e_ in mv.effects:
+        if e_.raw.get("name") in ("entry", "or_insert", "saturating_add") and "exit" in T.show(e_.args[0] if e_.args else (), maxdepth=6) + T.show(e_.args[1] if len(e_.args) > 1 else (), maxdepth=6):
+            sites.append(("range-accumulate", e_.bb, e_.loc))
+    for c, bb_, loc_ in sites:
+        extra_c = extra_filters(mv, bb_, allow_reference=c in ("block", "fee"))
+        ob.add({"C14"}, not extra_c, "UNCOND", "private/mirror/%s/no-extra-filter@bb" % c + ("" if c != "range-accumulate" else ""),
+               "the `%s` mirror applies to every non-dummy slot (asset: every slot): it is not nested under any further condition" % c, loc_, extra_c)
     # reverse direction: every rejection site is mirrored or a documented policy
     extra = cl.get(None, [])
     ob.add({"C14"}, not extra, "INV", "private/no-extra-rejections", "ensure_leaf_batch_compatible rejects only for the mirrored classes and the all-dummy policy", extra[0][0]["loc"] if extra else mv.loc0,
